@@ -296,6 +296,67 @@ def l7_loop(n: int, do_all: int, dae: int, msa: int, picks: List[int]) -> bool:
     return all(s in x.results.work for s in universe)
 
 
+class _GeneralisingResults(_IdealResults):
+    """what L1-L6 really give: the expressions match AT LEAST the working set they were built from; which other
+    strings they happen to match is arbitrary and may change from one extraction to the next (a larger working
+    set can yield a narrower expression, e.g. a hex-digit class instead of letters)"""
+    def __init__(self, work, also):
+        _IdealResults.__init__(self, work)
+        self.also = list(also)
+
+
+def l7c_loop_generalising(n: int, do_all: int, dae: int, msa: int, picks: List[int], gen: List[bool]) -> bool:
+    """
+    pre: 1 <= n <= P['n'] and 1 <= do_all <= P['k'] and 1 <= dae <= P['k'] and 0 <= msa <= P['msa']
+    pre: len(picks) <= P['n'] - 1 and all(0 <= p < P['n'] for p in picks)
+    pre: len(gen) == P['n'] * (P['msa'] + 4)
+    post: __return__
+    """
+    universe = UNIVERSE[:n]
+    holder = {}
+    fr = FakeRandom(picks)
+    flags = list(gen)
+
+    class LoopG(Extractor):
+        def batch_extract(self):
+            work = list(self.examples.strings)
+            also = []
+            for s_ in universe:
+                lucky = flags.pop() if flags else False
+                if s_ not in work and lucky:
+                    also.append(s_)
+            return _GeneralisingResults(work, also)
+
+    def check_fn(rexes, maxN):
+        res = holder['x'].results
+        fails = [s_ for s_ in universe if not (rexes and (s_ in res.work or s_ in res.also))]
+        if maxN is not None and len(fails) > maxN:
+            fails = fr.sample(fails, maxN)
+        return Examples(fails), [0] * len(rexes)
+    saved = rx.random
+    rx.random = fr
+    try:
+        size = Size(do_all=do_all, do_all_exceptions=dae, max_sampled_attempts=msa)
+        x = LoopG.__new__(LoopG)
+        holder['x'] = x
+        x.results = None
+        LoopG.__init__(x, check_fn, size=size, extract=True, seed=7)
+    finally:
+        rx.random = saved
+    return all(s_ in x.results.work or s_ in x.results.also for s_ in universe)
+
+
+def lift_l7c(n, do_all, dae, msa, picks, gen):
+    """public API witness of a non-monotone extraction: letters, then a digit that turns the class into hex digits"""
+    bad = 0
+    for ex in (['9', 'A', 'Z', 'b', 'a'], ['7', 'c', 'Q', 'B']):
+        for seed in range(12):
+            r = rx.extract(list(ex), size=Size(do_all=1, do_all_exceptions=1, n_per_length=1), seed=seed)
+            if not all(any(_full(p, e) for p in r) for e in ex):
+                bad += 1
+    return bad == 0
+
+
 def l7b_sample_non_matches(n: int, max_n: Optional[int], dae: int, picks: List[int], matched: List[bool]) -> bool:
     """
     pre: 1 <= n <= 4 and (max_n is None or 0 <= max_n <= 4) and 1 <= dae <= 4
@@ -580,6 +641,16 @@ def _obs():
                       param={'n': n, 'k': k, 'msa': msa}, timeout=to, tier=tier, lift='lift_l7',
                       stubs=['batch_extract idealised: its expressions match exactly its working set (what L1-L6 '
                              'give)', 'random -> FakeRandom (arbitrary subsets)']))
+    for (n, k, msa, tier, to) in ((3, 2, 1, 'quick', 400), (4, 2, 2, 'thorough', 3000)):
+        obs.append(Ob('L7', 'l7c_loop_generalising', 'the same loop when an extraction may also match strings outside '
+                      'its working set, differently on every pass (expressions generalise, and not monotonically): on '
+                      'return every example is matched by the results in force',
+                      'universe <=%d strings; Size(do_all 1..%d, do_all_exceptions 1..%d, max_sampled_attempts 0..%d) '
+                      'symbolic; <=%d symbolic sample picks; one symbolic "also matched" flag per string per pass'
+                      % (n, k, k, msa, n - 1), param={'n': n, 'k': k, 'msa': msa}, timeout=to, tier=tier,
+                      lift='lift_l7c',
+                      stubs=['batch_extract idealised: its expressions match its working set (L1-L6) plus an arbitrary '
+                             'set of other strings', 'random -> FakeRandom (arbitrary subsets)']))
     obs.append(Ob('L6', 'l6_merge', 'merge_patterns (alignment on shared fixed fragments, left and right) returns '
                   'exactly the patterns it was given, fragment for fragment',
                   '2 patterns of 1..2 and 1..3 fragments over a vocabulary of %d fragments (two fixed, one variable), '
